@@ -60,6 +60,9 @@ type world struct {
 	own       uint64
 }
 
+// r2Candidate makes R2 a candidate for the lease (the primary-change scenarios).
+var r2Candidate bool
+
 func newWorld(wal bool, viol func(string, string, ...any), spawn func(func()), ttl time.Duration) (*world, string) {
 	w := &world{wal: wal, viol: viol}
 	cl := lab.NewCluster(10 * time.Second)
@@ -74,8 +77,8 @@ func newWorld(wal bool, viol func(string, string, ...any), spawn func(func()), t
 		cfg.HaltAcquireTimeout = 3 * time.Second
 	}
 	cl.AddNode("P", true, nil)
-	cl.AddNode("R1", false, nil)
-	cl.AddNode("R2", false, nil)
+	cl.AddNode("R1", false, func(cfg *lab.NodeConfig) { cfg.ExitImage = true })
+	cl.AddNode("R2", r2Candidate, nil)
 	if err := cl.Start("P"); err != nil || cl.WaitPrimary(5*time.Second) == nil {
 		return w, "start P"
 	}
@@ -189,6 +192,10 @@ func run1(t *testing.T, c Case) (res Result) {
 		ttl := time.Duration(0)
 		if c.Scenario == "expiry" || c.Scenario == "expiry-then-commit" {
 			ttl = 2 * time.Second
+		}
+		r2Candidate = c.Scenario == "primary-change" || c.Scenario == "stale-forward"
+		if r2Candidate {
+			ttl = 8 * time.Second
 		}
 		w, herr := newWorld(c.WAL, viol, nil, ttl)
 		defer w.close()
@@ -399,6 +406,119 @@ func run1(t *testing.T, c Case) (res Result) {
 			}
 			w.checkAll("lost-" + strings.ReplaceAll(drop, " ", ""))
 			res.Class = "lost-ok"
+		case "primary-change":
+			// The primary changes while R1 holds the halt lock (Variant%2: 0 = Demote, 1 = hand-off to R2), and R1 commits
+			// Variant/2: 0 = at once, 1 = after the new primary is up. Whatever happens to that commit, if the application
+			// was told it succeeded the transaction must be in the one history every node ends with.
+			R2 := w.R2
+			if err := w.acquire(); err != nil {
+				viol("C13/acquire-failed", "acquiring the halt lock failed: %v", err)
+				return
+			}
+			if c.Variant%2 == 0 {
+				P.Store.Demote()
+			} else if err := P.Store.Handoff(context.Background(), R2.Store.ID()); err != nil {
+				res.Harness = "handoff refused: " + err.Error()
+				return
+			}
+			if c.Variant/2 == 1 {
+				if !lab.WaitFor(40*time.Second, R2.Store.IsPrimary) {
+					viol("C13/no-new-primary", "R2 did not become primary within 40 fake seconds of the %s", []string{"demotion", "hand-off"}[c.Variant%2])
+					return
+				}
+				lab.Settle(2 * time.Second)
+			}
+			imgBefore := w.img
+			ok, terr, step := w.txOn(R, 3, []uint32{2, 3})
+			imgAfter := w.img
+			res.Class = fmt.Sprintf("primary-change commit=%v err=%v", ok, terr != nil)
+			_ = step
+			_ = w.release()
+			exited := false
+			if len(R.ExitCodes()) > 0 {
+				exited = true
+				// a WAL commit refused in its final phase ends the process by design (it cannot be reported to SQLite): the
+				// application does not get to use that "success"
+				if err := R.RestartFromExitImage(); err != nil {
+					viol("C13/restart-after-refused-commit", "the halt holder does not restart after its refused commit: %v", err)
+					return
+				}
+				res.Class += " holder-exited"
+			}
+			if w.cl.WaitPrimary(60*time.Second) == nil {
+				viol("C13/no-single-primary/primary-change", "primaries after the change: %v", w.cl.Primaries())
+				return
+			}
+			// the old primary's halt lock runs out (8 s here), demotion delay, reconnects
+			lab.Settle(20 * time.Second)
+			if okc, why := w.cl.WaitConverged(40*time.Second, nil); !okc {
+				viol("C13/no-convergence/primary-change", "after the primary change: %s", why)
+				return
+			}
+			final := imgBefore
+			if li, e := oracle.ReadLogicalImage(w.cl.Primary().DB("db").Path(), ps); e == nil {
+				if eq, _ := li.Equal(imgAfter); eq {
+					final = imgAfter
+				}
+			}
+			if ok && !exited && final != imgAfter {
+				viol("C13/acknowledged-commit-lost/primary-change", "the halt holder's commit returned success to the application, but the history every node converged to does not contain it (primary now %s at %s)", w.cl.Primary().Cfg.Name, posOf(w.cl.Primary()))
+			}
+			w.img = final
+			w.checkAll("primary-change")
+			// the new primary writes; everybody follows
+			if okw, err, st := w.txOn(w.cl.Primary(), 30, []uint32{3}); !okw {
+				viol("C13/writer-after-primary-change", "the new primary cannot write: %v at %s", err, st)
+			}
+			w.checkAll("primary-change-follow-up")
+		case "stale-forward":
+			// The holder has not noticed the primary change: it forwards its transaction to the node that granted the
+			// lock, which is no longer the primary (Variant%2: 0 = demoted, 1 = handed the lease to R2) but still has
+			// the lock on its books. That node must refuse; accepting would acknowledge a transaction that no primary has.
+			R2 := w.R2
+			cli := lfshttp.NewClient()
+			cli.HTTPClient = &http.Client{Transport: w.cl.Net.Transport("R1")}
+			ctx := context.Background()
+			if _, err := cli.AcquireHaltLock(ctx, "http://P", R.Store.ID(), "db", 4242); err != nil {
+				res.Harness = "halt: " + err.Error()
+				return
+			}
+			if c.Variant%2 == 0 {
+				P.Store.Demote()
+			} else if err := P.Store.Handoff(ctx, R2.Store.ID()); err != nil {
+				res.Harness = "handoff refused: " + err.Error()
+				return
+			}
+			if !lab.WaitFor(40*time.Second, func() bool { return R2.Store.IsPrimary() && !P.Store.IsPrimary() }) {
+				viol("C13/no-new-primary", "R2 did not become primary within 40 fake seconds")
+				return
+			}
+			held := P.DB("db").VerifHaltLockID()
+			cur := posOf(P)
+			next := w.img.Clone()
+			next.Pages[1] = pager.MakePage(ps, 2, 0xF00)
+			var buf bytes.Buffer
+			enc := ltx.NewEncoder(&buf)
+			_ = enc.EncodeHeader(ltx.Header{Version: 1, PageSize: ps, Commit: next.N(), MinTXID: cur.TXID + 1, MaxTXID: cur.TXID + 1, Timestamp: 5, PreApplyChecksum: cur.PostApplyChecksum, NodeID: R.Store.ID()})
+			_ = enc.EncodePage(ltx.PageHeader{Pgno: 2}, next.Pages[1])
+			enc.SetPostApplyChecksum(ltx.Checksum(next.Checksum()))
+			_ = enc.Close()
+			err := cli.Commit(ctx, "http://P", R.Store.ID(), "db", 4242, bytes.NewReader(buf.Bytes()))
+			res.Class = fmt.Sprintf("stale-forward lock-still-on-books=%v accepted=%v", held == 4242, err == nil)
+			_ = cli.ReleaseHaltLock(ctx, "http://P", R.Store.ID(), "db", 4242)
+			lab.Settle(20 * time.Second)
+			if okc, why := w.cl.WaitConverged(40*time.Second, nil); !okc {
+				viol("C13/no-convergence/stale-forward", "after the stale forward: %s", why)
+				return
+			}
+			if err == nil {
+				if li, e := oracle.ReadLogicalImage(w.cl.Primary().DB("db").Path(), ps); e != nil || !func() bool { eq, _ := li.Equal(next); return eq }() {
+					viol("C13/forward-accepted-by-non-primary", "POST /tx with the lock id was answered with success by %s after it stopped being the primary (lock still on its books: %v); the transaction is not in the history the cluster converged to (primary %s at %s)", P.Cfg.Name, held == 4242, w.cl.Primary().Cfg.Name, posOf(w.cl.Primary()))
+				} else {
+					w.img = next
+				}
+			}
+			w.checkAll("stale-forward")
 		case "dup-acquire":
 			// Two acquire requests with the same lock ID are in flight at once (an interrupted FUSE call is retried
 			// while the first request is still waiting), with a local writer on the primary holding its write locks
@@ -745,6 +865,8 @@ func TestCheck(t *testing.T) {
 	for _, wal := range []bool{false, true} {
 		cases = append(cases, Case{Scenario: "basic", WAL: wal, Variant: 0}, Case{Scenario: "basic", WAL: wal, Variant: 1},
 			Case{Scenario: "expiry", WAL: wal}, Case{Scenario: "expiry-then-commit", WAL: wal},
+			Case{Scenario: "primary-change", WAL: wal, Variant: 0}, Case{Scenario: "primary-change", WAL: wal, Variant: 1}, Case{Scenario: "primary-change", WAL: wal, Variant: 2}, Case{Scenario: "primary-change", WAL: wal, Variant: 3},
+			Case{Scenario: "stale-forward", WAL: wal, Variant: 0}, Case{Scenario: "stale-forward", WAL: wal, Variant: 1},
 			Case{Scenario: "dup-acquire", WAL: wal, Variant: 0}, Case{Scenario: "dup-acquire", WAL: wal, Variant: 1}, Case{Scenario: "dup-acquire", WAL: wal, Variant: 2})
 		for v := 0; v < 3; v++ {
 			cases = append(cases, Case{Scenario: "lost-replies", WAL: wal, Variant: v})
